@@ -72,7 +72,7 @@ class DynamicSGEDecider(SynthesisDecider):
         return str(self.random_chr() for _ in range(length))
 
     def random_bool(self) -> bool:
-        return self.read(bool)
+        return self.read(bool) % 2 == 1
 
     def choose_production_alternatives(self, ty: type, alternatives: list[type], ctx: LocalSynthesisContext) -> type:
         assert len(alternatives) > 0, "No alternatives presented"
